@@ -77,6 +77,8 @@ class ContractsBridge:
             r0 = args[0]
             if r0.kind == "enum" and r0.variant == "Err":
                 return [("true", venum("Result", "Err", [r0.fields[0]]))]
+            if r0.kind == "opaque" and "::Err(" in r0.text:
+                return [("true", venum("Result", "Err", [vopaque("()")]))]  # a constant Err(..) residual
             raise Unsupported("from_residual on a value that is not a concrete Err")
         if re.search(r"Core::<A>::process_event$", c):
             note("core_process_event", tok(args[1]))
